@@ -135,6 +135,59 @@ def shrink(pid, lines, pred_key, kind, budget=10):
     return cur
 
 
+def refreshed(pid, small, f):
+    """the failure as it shows on the shrunk history (names and steps differ from the original)"""
+    mon, _ = CFG[pid]
+    res, _ = syscorr.run_both([("shrunk", small)], "shrunk_" + pid)
+    cid, ls, iobs, mobs = res[0]
+    for g in mon(sysmon.Trace(cid, ls, iobs, XMAP)):
+        if failure_key(g) == failure_key(f):
+            return g
+    return f
+
+
+# ---------------------------------------------------------------- directed search after a correspondence break
+PROBE_LABELS = ["zone=a,tier=x,rack=5", "zone=b,tier=x,rack=12", "-", "zone=a"]
+
+
+def probe_suffixes(lines):
+    """continuations designed to turn a silent divergence into a visible property failure: serve more nodes, delete the
+    ClusterCIDRs, delete the nodes, restart -- each followed by fair processing"""
+    ccs = sorted({l.split()[1] for l in lines if l.startswith("cc+ ")})
+    nodes = sorted({l.split()[1] for l in lines if l.startswith("n+ ")})
+    drain = sysgen.drain_ops(2)
+    fill = []
+    for i, lb in enumerate(PROBE_LABELS + PROBE_LABELS[:2]):
+        fill += ["n+ p%d %s -" % (i, lb), "dn", "pn ok"]
+    fill += drain
+    delcc = ["cc- " + c for c in ccs] + drain
+    delnodes = ["n- " + n for n in nodes] + drain
+    restart = ["crash", "construct - - -", "start"] + drain
+    return [fill, drain + fill, delcc, drain + delcc, delcc + fill, delnodes + fill, delnodes + delcc, restart + fill, restart + delcc,
+            drain + delnodes + restart + fill]
+
+
+def probe_search(pid, mism, limit=12):
+    """from the histories on which model and implementation diverge, look for a concrete history on which the property's
+    monitor fails on the implementation"""
+    mon, fields = CFG[pid]
+    cands = []
+    for cid, lines, mm in mism[:limit]:
+        for cut in (mm["step"] + 1, len(lines)):
+            pre = lines[:cut]
+            for j, suf in enumerate(probe_suffixes(pre)):
+                cands.append(("probe_%s_%d_%d" % (cid, cut, j), pre + suf))
+    if not cands:
+        return None, 0
+    res, _ = syscorr.run_both(cands, "probe_" + pid)
+    for cid, ls, iobs, mobs in res:
+        t = sysmon.Trace(cid, ls, iobs, XMAP)
+        fs = [f for f in (mon(t)) if classify(pid, f) is None]
+        if fs:
+            return (cid, ls, fs[0]), len(cands)
+    return None, len(cands)
+
+
 def run(res, tier, seed, pid):
     vlib.standard_proof_step(res, pid)
     if not vlib.build_executors(res, pid):
@@ -159,7 +212,7 @@ def run(res, tier, seed, pid):
         "evaluations": nops, "distinct_nontrivial": len({tuple(l) for _, l in cases if len(l) >= 6}),
         "rule": "system histories over a universe of <=4 ClusterCIDRs x <=5 nodes (pools of 1..16 blocks, single/dual stack, identical/nested/disjoint ranges, "
                 "6 selector shapes): random histories (user ops, deliveries, resyncs, tombstones, fetch/run splits, scripted write outcomes ok/fail/timeout-applied/"
-                "timeout-not-applied, crashes + restarts) and 10 scenario templates with 12% noise ops, plus the committed corpus; a history is non-trivial when it is "
+                "timeout-not-applied, crashes + restarts) and 13 scenario templates with 12% noise ops, plus the committed corpus; a history is non-trivial when it is "
                 "distinct and has at least 6 ops",
         "samples": [{"case": cases[i][0], "ops": cases[i][1][:14]} for i in (0, len(cases) // 2, len(cases) - 1)],
         "distribution": stats, "timing": st, "traces_validated_against_impl": len(cases),
@@ -177,18 +230,33 @@ def run(res, tier, seed, pid):
             continue
         seen.add(failure_key(f))
         small = shrink(pid, lines[:f["step"] + 1] if pid != "C11" else lines, failure_key(f), "monitor")
+        f = refreshed(pid, small, f)
         res.violation({"property": pid, "kind": "impl-violation", "theorem_or_correspondence": "property monitor on the implementation's trace",
                        "monitor_clause": f["clause"], "class": f["cls"], "detail": f["detail"],
                        "case": ["case " + cid] + small, "original_length": len(lines), "first_bad_step": f["step"],
                        "replay_cmd": "/verif/check %s --replay <this file>" % pid})
     # correspondence broken on the projection although no monitor failed: the property is no longer shown to hold
     if mism and not unknown:
+        found, tried = probe_search(pid, mism)
+        res.coverage["probe_histories_after_break"] = tried
+        if found is not None:
+            cid, lines, f = found
+            small = shrink(pid, lines[:f["step"] + 1] if pid != "C11" else lines, failure_key(f), "monitor")
+            f = refreshed(pid, small, f)
+            res.violation({"property": pid, "kind": "impl-violation", "theorem_or_correspondence": "property monitor on the implementation's trace "
+                           "(history found by the directed search that follows a correspondence break)",
+                           "monitor_clause": f["clause"], "class": f["cls"], "detail": f["detail"],
+                           "case": ["case " + cid] + small, "original_length": len(lines), "first_bad_step": f["step"],
+                           "correspondence_first_difference": mism[0][2],
+                           "replay_cmd": "/verif/check %s --replay <this file>" % pid})
+            return
         cid, lines, mm = mism[0]
         small = shrink(pid, lines[:mm["step"] + 1], mm["field"], "mismatch")
         res.violation({"property": pid, "kind": "correspondence-break",
                        "theorem_or_correspondence": "correspondence model (Alloc.v/Sys.v) vs real controller on projection %s; theorems of Properties/%s.v are about the model" % (fields, pid),
                        "first_difference": mm, "case": ["case " + cid] + small, "mismatching_histories": len(mism),
-                       "searched": "monitor evaluated on all %d implementation traces of this run without finding a failing history" % len(cases)},
+                       "searched": "monitor evaluated on all %d implementation traces of this run and on %d probe continuations of the diverging histories "
+                                   "(more nodes, ClusterCIDR deletion, node deletion, restart, each with fair processing) without finding a failing history" % (len(cases), tried)},
                       nofail=True)
 
 
